@@ -2,10 +2,10 @@
 import itertools
 
 import vf
-from harness import lifecycle
+from harness import lifecycle, lifecycle_i
 
 HEADER = """From Coq Require Import List Bool String.
-Require Import GV.Gen.LifecycleRules GV.Model.Lifecycle GV.Model.LifecycleChk.
+Require Import GV.Gen.LifecycleRules GV.Model.Lifecycle GV.Model.LifecycleChk GV.Model.LifecycleI GV.Model.LifecycleIChk.
 Import ListNotations. Open Scope string_scope.
 """
 OUT = {"next": "CNext", "retry": "CRetryExceeded", "cannot0": "(CCannotFind 0)", "cannot1": "(CCannotFind 1)", "cannot2": "(CCannotFind 2)", "raise": "CRaise"}
@@ -25,6 +25,91 @@ def clabel(l):
 
 def cdel(d):
     return "(%s, %s, %s, %s)" % (d[0], d[1], vf.cbool(d[2]), vf.cstr(d[3]))
+
+
+def ilabel(l):
+    return "(LResume S%s)" % l[1] if l[0] == "Resume" else "(LBig %s)" % clabel(l)
+
+
+def cobs(snap, occ, sep=", "):
+    return "(%s, %s, %s, %s)%s(%s, %s, %s)" % (snap[0], vf.cbool(snap[1]), vf.cbool(snap[2]), vf.cbool(snap[3]), sep, vf.cbool(occ[0]), vf.cbool(occ[1]), vf.cbool(occ[2]))
+
+
+def ischedule_expr(configured, enter, first, snap0, occ0, out):
+    steps = ["(%s, %s, %s, [%s])" % (ilabel(l), vf.cbool(app), cobs(snap, occ), "; ".join(cdel(d) for d in dels)) for (l, app, snap, dels, occ, exc) in out]
+    return "chk_ischedule %s [%s] [%s] %s [%s]" % (vf.cbool(configured), "; ".join(cdel(d) for d in enter), "; ".join(cdel(d) for d in first), cobs(snap0, occ0, " "), "; ".join(steps))
+
+
+R = lambda s: ("Resume", s)   # noqa: E731
+# finding K10 as a schedule of the harness (the pump's polls happen by themselves): see Proofs/LifecycleIP.w_k10
+W_K10 = [R("P"), ("LocOutcome", False, False), R("P"), R("P"), ("LocOutcome", True, False), R("P"), R("P"), R("P"), ("ConnOutcome", "raise"), R("P"),
+         ("UserReset",), R("P"), R("P"), ("LocOutcome", True, False), R("U"), R("P"), ("Pump",), ("Pump",)]
+
+
+def interleaved(ctx):
+    """schedules of bursts on the real manager with the client's handler suspended at every delivery"""
+    exprs, metas = [], []
+    n = 160 if ctx.thorough else 40
+    runs = [("adaptive", k % 4 != 3, None) for k in range(n)] + [("k10", True, W_K10)]
+    for kind, configured, fixed in runs:
+        if fixed is None:
+            enter, (first, snap0, occ0), out, alive = lifecycle_i.run_adaptive(configured, ctx.rng, 80 if ctx.thorough else 60, warm=(len(exprs) % 2 == 1 and configured))
+        else:
+            enter, (first, snap0, occ0), out, alive = lifecycle_i.run_schedule(configured, fixed)
+        exprs.append(ischedule_expr(configured, enter, first, snap0, occ0, out))
+        labels = [l for (l, app, snap, dels, occ, exc) in out if app]
+        reached, conc, ready_open = set(), 0, False
+        prev_occ = occ0
+        for j, (l, app, snap, dels, occ, exc) in enumerate(out):
+            if not app:
+                continue
+            hist = [x[0] for x in out[:j + 1] if x[1]]
+            reached.add(snap[0])
+            conc += sum(occ) >= 2
+            ctx.count("ischedule_steps")
+            for d in dels:
+                if d[0] == "CLIENT_FACADE_IS_READY":
+                    if d[1] != "CONNECTED" or not d[2]:
+                        ctx.fail("lifecycle:ready", "CLIENT_FACADE_IS_READY delivered in state %s, facade present=%s (interleaved schedule)" % (d[1], d[2]), {"configured": configured, "schedule": hist})
+                    ready_open = True
+                if d[0] == "CLIENT_FACADE_TEARDOWN":
+                    if not d[2]:
+                        ctx.fail("lifecycle:teardown_without_facade", "CLIENT_FACADE_TEARDOWN delivered when manager.facade is already None (interleaved schedule)", {"configured": configured, "schedule": hist})
+                    if not ready_open:
+                        ctx.fail("lifecycle:teardown_extra", "CLIENT_FACADE_TEARDOWN announced twice for one facade-ready (interleaved schedule)", {"configured": configured, "schedule": hist})
+                    ready_open = False
+            if snap[0] == "CONNECTED" and not (snap[1] and snap[2]):
+                ctx.fail("lifecycle:connected", "CONNECTED without facade / spa (interleaved schedule)", {"configured": configured, "schedule": hist})
+            for who, what in exc:
+                ctx.fail("lifecycle:task_died", "task %s died inside the manager: %s" % (who, what), {"configured": configured, "schedule": hist})
+            # a user reset / set-spa-info that has just returned: IDLE with no facade, spa or descriptors?
+            if prev_occ[2] and not occ[2] and l == ("Resume", "U") and (snap[1] or snap[2] or snap[3]):
+                ctx.fail("lifecycle:reset_not_clean_concurrent", "async_reset returned with (state, facade?, spa?, descriptors?) = %r: while its RUNNING_SPA_DISCONNECTED handler was suspended "
+                         "another task went on (the pump finished its own reset and discovered / connected again)" % (snap,), {"configured": configured, "schedule": hist})
+            prev_occ = occ
+        if kind == "k10":
+            snap = out[-1][2]
+            ctx.count("k10_witness_replayed")
+            if snap[0] == "IDLE" and snap[3] and not any(out[-1][4]):
+                ctx.fail("lifecycle:reset_not_clean_concurrent", "after the schedule of finding K10 the manager sits in IDLE with descriptors present and the pump polls without doing anything (stuck until the next reset)",
+                         {"configured": True, "schedule": [x[0] for x in out]})
+        metas.append({"kind": kind, "configured": configured, "steps": len(labels), "states": sorted(reached), "steps_with_two_tasks_inside": conc})
+        ctx.case(("ischedule", kind, str(labels)), nontrivial=conc > 0 and bool(reached & {"CONNECTED", "CONNECTING", "ERROR_NEEDS_ATTENTION", "ERROR_PING_MISSED", "ERROR_RF_FAULT"}))
+        for st in reached:
+            ctx.count("istate:" + st)
+        ctx.count("isteps_with_two_tasks_inside", conc)
+    res = ctx.coq_cases("lifei", HEADER, ["Nat.eqb (%s) 0" % e for e in exprs], shard=8)
+    bad = [i for i, r in enumerate(res) if r is not True]
+    detail = ""
+    if bad:
+        i = bad[0]
+        rc, out = vf.coqc_text("C08_idbg", HEADER + "Eval vm_compute in (%s).\n" % exprs[i])
+        detail = "schedule %d (%s): first rejected step (index+1, 1000/1001 = entry) %s" % (i, metas[i]["kind"], " ".join(out.split())[-40:])
+        metas[i]["first_rejected"] = detail
+        ctx.extra["rejected_schedule"] = {"detail": detail, "expr_head": exprs[i][:300]}
+    ctx.oblige("correspondence:interleaved_lifecycle_model", not bad, detail)
+    for m in metas[:2] + metas[-1:]:
+        ctx.sample(m)
 
 
 ALL = ([("Pump",), ("LocOutcome", True, False), ("LocOutcome", False, False), ("LocOutcome", False, True)] +
@@ -58,7 +143,7 @@ def run(ctx):
                 "the virtual-time loop, discovery and the handshake scripted step by step (outcomes: found / none / raises; next / retry exceeded / cannot find x3 / raises), "
                 "events of the connection's own tasks, user resets and set-spa-info injected between any two steps; after every label the manager's (state, facade?, spa?, "
                 "descriptors?) and every event delivered to the client with (state, facade?, status text) sampled at delivery are compared with the LTS interpreted from the "
-                "AST-extracted rule table; random walks (length 40) plus all label sequences of length 3 from three seeds states (thorough: 4); non-trivial = trace that reaches CONNECTED or an error state")
+                "AST-extracted rule table; INTERLEAVED schedules (the client's handler suspended at every delivery; pump, one connection task and one user task resumed one burst at a time, chosen adaptively among what can happen plus 8% that cannot) accepted step by step by the small-step machine Model/LifecycleI.v; random walks (length 40) plus all label sequences of length 3 from three seeds states (thorough: 4); non-trivial = trace that reaches CONNECTED or an error state")
     ctx.prove(timeout=1800)
     rng = ctx.rng
     traces = []
@@ -123,6 +208,7 @@ def run(ctx):
                          "handler was suspended, %s by another" % (tear, e1, e2), {"first": e1, "second": e2, "deliveries": [d[:2] for d in dels]})
     for s in (meta[0], meta[1], meta[-1]):
         ctx.sample(s)
+    interleaved(ctx)
     res = ctx.coq_cases("life", HEADER, exprs, shard=40)
     bad = [m for m, r in zip(meta, res) if r is not True]
     if bad:
@@ -137,5 +223,5 @@ def run(ctx):
             meta[i]["first_rejected_step"] = " ".join(out.split())[-40:]
     ctx.oblige("correspondence:lifecycle_model", not bad, "first disagreements: %r" % (bad[:2],))
     ctx.assume += ["the rule-table extractor (fail-closed) is trusted for the proof side and cross-checked by this behavioural run",
-                   "events are processed to quiescence one label at a time: interleavings INSIDE one _handle_event call (a client handler suspended while another task raises an event) are not modelled",
+                   "interleavings: at most one task of the connection and one user task inside the manager besides the pump (Model/LifecycleI.v); the client's handler is the only suspension point inside _handle_event / async_reset (the facade's disconnect and the watercare query of the harness do not suspend)",
                    "discovery and the spa handshake are scripted (their real behaviour is C15 / C09)"]
